@@ -12,6 +12,7 @@ EXPLANATION = (
     "destination is inspected, and the short-write API Write::write is not used. R3: a buffered writer is flushed, with the "
     "result inspected, on every successful path. Together: the destination is only touched after assembly can no longer "
     "fail, and success is reported only through the Ok successor of every write."
+    ' R4: every Ok return of the compile arm lies behind a write to the destination. R5: closed panic ledger from the opening of the destination to the exit. R6: exit statuses on the compile path are constants. R7: behind the open, only writes on the opened destination can fail (a sole opener that also writes counts as such).'
 )
 NOT_DECIDED = ("what the kernel does under faults; preservation of a pre-existing regular file when a device fills "
                "half-way through the single write (would need write-to-temp + rename)")
